@@ -10,6 +10,19 @@ add("C04", "exploration",
     "Trusts the 12-line shift-and-add reference and the 64-bit little-endian host for the NativeEndian clause.",
     "exhaustive enumeration + property-based testing (proptest) against a reference implementation", "DESIGN.md §5 C04")
 
+add("C02", "exploration",
+    "Seeded proptest search over field-value assignments (boundary, top-bit, per-byte-distinct, raw) for 18 structure types x 4 encodings x fixed/run-time specs, judged against an independent ELF writer (inverse oracle) whose layout is checked against <elf.h>; the 2^16 domain of the derived one-/two-byte accessors is enumerated exhaustively. Random+boundary search is the right level: each field is decoded independently, so a wrong width/extension/mask/order shows on a large share of cases.",
+    "Trusts the writer (cross-checked field by field against glibc <elf.h> offsets at start-up) and the ABI macro transcriptions (ELF32_R_*, ELF64_R_*, ELF_ST_*).",
+    "property-based testing (proptest) with an inverse (encoder) oracle + exhaustive enumeration of 2^16 accessor inputs", "DESIGN.md §5 C02")
+add("C09", "exploration",
+    "Seeded proptest search over (entry type, class, order, n<=40 writer-encoded entries, ragged tails of every residue, access scripts incl. indices at len, len+1 and near usize::MAX whose byte offset wraps, interleaved iterators); model oracle len=floor(bytes/ABI entsize).",
+    "Trusts the ABI entry sizes (from <elf.h>) and the writer.",
+    "model-based property testing (proptest): access scripts against a floor(len/entsize) model and encoder ground truth", "DESIGN.md §5 C09")
+add("C15", "exploration",
+    "Exhaustive enumeration of every table of length 0..7 over {NUL,'a',0xC3,0xA9} at every offset 0..len+2 (233k lookups) plus seeded proptest search over tables up to 4 KiB with offsets at len-1, len, len+1, boundary values and usize::MAX, against a NUL-scan reference, including pointer identity of the returned slice.",
+    "Trusts the NUL-scan reference and core::str::from_utf8.",
+    "exhaustive enumeration + property-based testing (proptest) against a reference implementation", "DESIGN.md §5 C15")
+
 NOT_YET = {}
 allp = [json.loads(l)["id"] for l in open("properties.jsonl")]
 checks = []
